@@ -286,6 +286,24 @@ func weakenVal(ctx *Ctx, v cty.Value, o wkOpts, top bool, st *wkStats) cty.Value
 				st.frontier = true
 				st.hit("dynamic-nested")
 			}
+			if t.IsSetType() && ctx.R.Intn(3) == 0 {
+				// a set with not wholly known members may STORE more members than the set it stands for:
+				// one concrete member is given a second, differently weakened stand-in (the two coalesce
+				// in the concrete set).  Length, Equals, HasElement … must allow for that.
+				i := ctx.R.Intn(v.LengthInt())
+				for it := v.ElementIterator(); it.Next(); i-- {
+					if i == 0 {
+						_, e := it.Element()
+						o2 := o
+						o2.p = 0.6
+						if w2 := weakenVal(ctx, e, o2, false, st); !w2.IsWhollyKnown() {
+							ws = append(ws, w2)
+							st.hit("set-member-duplicated")
+						}
+						break
+					}
+				}
+			}
 			switch {
 			case t.IsListType():
 				ret = cty.ListVal(ws)
